@@ -6,8 +6,11 @@ import Mathlib.Tactic.Linarith
 import Mathlib.Algebra.Order.Ring.Rat
 namespace Mpir.Cxx
 
+theorem Heap.ext' {h1 h2 : Heap} (e : ∀ l, h1 l = h2 l) : h1 = h2 := by
+  cases h1; cases h2; congr; funext l; exact e l
+
 theorem Heap.set_self (h : Heap) (p : ZLoc) : h.set p (h p) = h := by
-  funext l; simp only [Heap.set]; split <;> simp_all
+  apply Heap.ext'; intro l; simp only [Heap.set]; split <;> simp_all
 
 @[simp] theorem Heap.set_get (h : Heap) (p : ZLoc) (x : Int) : (h.set p x) p = x := by simp [Heap.set]
 
@@ -15,7 +18,7 @@ theorem Heap.set_get_ne (h : Heap) (p l : ZLoc) (x : Int) (hne : l ≠ p) : (h.s
   simp [Heap.set, hne]
 
 @[simp] theorem Heap.set_set (h : Heap) (p : ZLoc) (x y : Int) : (h.set p x).set p y = h.set p y := by
-  funext l; simp only [Heap.set]; split <;> simp_all
+  apply Heap.ext'; intro l; simp only [Heap.set]; split <;> simp_all
 
 theorem copyZ_eq (p w : ZLoc) (h : Heap) : copyZ p w h = some (h.set p (h w)) := by
   unfold copyZ mpz_set
